@@ -40,7 +40,13 @@ var NewReaderDict = flate.NewReaderDict
 func NewReader(r io.Reader) io.ReadCloser {
 	rr := &decompressor{}
 	rr.r = r
-	rr.rBuf = bufio.NewReader(r)
+	if ur, ok := r.(*bufio.Reader); ok {
+		// use the caller's buffer whatever its size, as Reset does:
+		// wrapping a small one in a second buffer reads ahead from it
+		rr.rBuf = ur
+	} else {
+		rr.rBuf = bufio.NewReader(r)
+	}
 	return rr
 }
 
